@@ -170,8 +170,9 @@ pub fn run(cx: &mut Ctx) {
         case(cx, id, 2, 9 * 1024, 32, &pw, &salt, "salt_length", true);
         // object API (Argon2id presets), arbitrary salt and hash length
         let hl = 16 + (saltlen * 7) % 113;
-        let cfg = Config::interactive().with_opslimit(1).with_memlimit(8192 + saltlen * 1024).with_hash_length(hl).with_salt_length(saltlen);
-        let c = || json!({"op":"PwHash::hash_with_salt","saltlen":saltlen,"hash_length":hl,"pw":hx(&pw),"salt":hx(&salt)});
+        let (cfg, cfg_desc) = build_config(&mut rng, 1, 8192 + saltlen * 1024, hl, if saltlen % 3 == 0 { None } else { Some(saltlen) });
+        cx.cover("config_builder_order", &cfg_desc);
+        let c = || json!({"op":"PwHash::hash_with_salt","saltlen":saltlen,"hash_length":hl,"pw":hx(&pw),"salt":hx(&salt),"config_built_as":cfg_desc});
         let want = na::argon2_raw(true, 1, (8 + saltlen) as u32, &pw, &salt, hl).unwrap();
         let r = call(cx, "C09|PwHash::hash_with_salt", "PwHash::hash_with_salt", c, || PwHash::<Vec<u8>, Vec<u8>>::hash_with_salt(&pw, salt.clone(), cfg.clone()));
         if let Some(r) = r {
